@@ -309,3 +309,112 @@ def gen_doc(
                 }
             )
     return d
+
+
+def hostilize(rng, doc, prephase=None, allow_missing=True):
+    """Make a simulated (clean) Doc hostile in place: extra header definitions and INFO/FORMAT values, extra records
+    (multi-ALT, symbolic, no-ALT, duplicate positions), missing / partial genotypes, pre-existing phasing with the
+    given tag ('PS' | 'HP' | None), unsorted unphased genotypes, FILTER/QUAL/ID variety."""
+    infos = [x for x in INFO_DEFS if x[0] != "DP" and rng.random() < 0.6]
+    fmts = [x for x in FORMAT_DEFS if x[0] not in ("GQ",) and rng.random() < 0.6]
+    extra = []
+    for a in ("DEL", "INS", "DUP"):
+        extra.append('##ALT=<ID=%s,Description="symbolic %s">' % (a, a))
+    extra.append('##INFO=<ID=END,Number=1,Type=Integer,Description="End position">')
+    extra.append('##FILTER=<ID=lowq,Description="low quality">')
+    extra.append('##FILTER=<ID=q10,Description="q10">')
+    if rng.random() < 0.3:
+        extra.append("##phasing=none")
+    for k, n, t in infos:
+        extra.append('##INFO=<ID=%s,Number=%s,Type=%s,Description="info %s">' % (k, n, t, k))
+    for k, n, t in fmts:
+        extra.append('##FORMAT=<ID=%s,Number=%s,Type=%s,Description="format %s">' % (k, n, t, k))
+    if prephase == "PS":
+        extra.append('##FORMAT=<ID=PS,Number=1,Type=Integer,Description="Phase set identifier">')
+    if prephase == "HP":
+        extra.append('##FORMAT=<ID=HP,Number=.,Type=String,Description="Phasing haplotype identifier">')
+    if rng.random() < 0.3:
+        extra.append('##FORMAT=<ID=PQ,Number=1,Type=Float,Description="Phasing quality">')
+        with_pq = True
+    else:
+        with_pq = False
+    doc.meta = doc.meta[:1] + extra + doc.meta[1:]
+    new = []
+    block = {}
+    for r in doc.records:
+        # extra record before this one?
+        if rng.random() < 0.25:
+            kind = rng.choice(["multi", "symbolic", "noalt", "dup", "dup"])
+            if kind == "dup":
+                ref, alts = r["ref"][0], [rng.choice([b for b in BASES if b != r["ref"][0]])]
+                pos = r["pos"]
+            else:
+                ref, alts = random_ref_alt(rng, kind)
+                pos = max(1, r["pos"] - rng.randint(1, 20))
+                if new and new[-1]["chrom"] == r["chrom"] and pos < new[-1]["pos"]:
+                    pos = new[-1]["pos"]
+            calls = []
+            for _ in doc.samples:
+                na = len(alts)
+                g = [str(rng.randint(0, na)) for _ in range(2)]
+                calls.append({"GT": rng.choice(["/", "/", "|"]).join(g), "GQ": "30"})
+            x = {"chrom": r["chrom"], "pos": pos, "id": ".", "ref": ref, "alts": alts, "qual": ".", "filter": ".", "info": ".",
+                 "fmt": ["GT", "GQ"], "calls": calls, "kind": kind}
+            if kind == "dup" and rng.random() < 0.5:
+                new.append(r)
+                r = x  # duplicate goes after
+            else:
+                new.append(x)
+        new.append(r)
+    doc.records = new
+    for r in doc.records:
+        nalt = len(r["alts"])
+        info = {} if r["info"] == "." else dict(kv.split("=") if "=" in kv else (kv, True) for kv in r["info"].split(";"))
+        for key, n, t in infos:
+            if rng.random() < 0.5:
+                info[key] = _info_value(rng, key, nalt)
+        r["info"] = ";".join(k if v is True else "%s=%s" % (k, v) for k, v in info.items()) or "."
+        r["id"] = rng.choice([".", "rs%d" % rng.randint(1, 9999)])
+        r["qual"] = rng.choice([".", "30", "12.5", "1000"])
+        r["filter"] = rng.choice(["PASS", ".", "lowq", "lowq;q10"])
+        rec_fmts = [x[0] for x in fmts if rng.random() < 0.7 and x[0] not in r["fmt"]]
+        r["fmt"] = r["fmt"] + rec_fmts
+        use_ps = use_hp = use_pq = False
+        for si, call in enumerate(r["calls"]):
+            for key in rec_fmts:
+                call[key] = _format_value(rng, key, nalt)
+            gt = call["GT"]
+            al = gt.replace("|", "/").split("/")
+            if allow_missing and rng.random() < 0.04:
+                call["GT"] = rng.choice(["./.", ".", "0/.", "./1"])
+                continue
+            het = len(set(al)) > 1 and "." not in al
+            if het and prephase and rng.random() < 0.6 and nalt >= 1:
+                key = (r["chrom"], si)
+                if key not in block or rng.random() < 0.2:
+                    block[key] = r["pos"]
+                if rng.random() < 0.5:
+                    al = list(reversed(al))
+                if prephase == "PS":
+                    call["GT"] = "|".join(al)
+                    call["PS"] = str(block[key])
+                    use_ps = True
+                else:
+                    order = [1, 2]
+                    rng.shuffle(order)
+                    call["GT"] = "/".join(al)
+                    call["HP"] = ",".join("%d-%d" % (block[key], o) for o in order)
+                    use_hp = True
+                if with_pq and rng.random() < 0.5:
+                    call["PQ"] = "23.5"
+                    use_pq = True
+            elif het and rng.random() < 0.15:
+                call["GT"] = "/".join(reversed(al))
+            elif not het and "." not in al and rng.random() < 0.05 and prephase != "HP":
+                call["GT"] = "|".join(al)
+        for key, flag in (("PS", use_ps), ("HP", use_hp), ("PQ", use_pq)):
+            if flag:
+                r["fmt"].append(key)
+                for call in r["calls"]:
+                    call.setdefault(key, ".")
+    return doc
